@@ -1,7 +1,7 @@
 // C07 — vector reductions match their definitions and are overflow-safe in log space
 // VF-VARIANT: san
-// VF-RULE: E2 bounded-exhaustive enumeration, simplest input first, every index of every space executed on the real templates: (1) all int vectors over {-2..2} and all double vectors over {-1.5,0,0.25,1,2} of length 0..L through every one-vector function; (2) all ordered pairs of such vectors with lengths 0..3 (equal and unequal) x 7 function groups (operators, in-place operators, sumProd, scalar/cos/cov/cor/kronecker/mutual information, containsAll, diff, other set-like helpers); (3) all (values, weights) pairs of lengths 0..3 and all equal-length triples (v1, v2, weights) of length 0..3; (4) every length combination 0..3 x 0..3 (x 0..3) for each function with a size requirement; (5) structured families (constant, ramps, alternating, spike at every position, tie at every pair of positions) for every length 6..64; (6) log-space alphabet {0,-1,1,-800,800,-745.2,709.8,-1e300,1e300,-inf,+inf} for lengths 0..4 x shifts {0,+-1,+-700,+-1e300}, with weights over {1,0,0.5,0.25} for lengths 0..3, all pairs for NumTools::logsum, long log-space families 6..64; (7) seq over a lattice of (from,to,by), computeFdr over all p-vectors of length 0..L over 5 values, lists of 0..3 vectors for the list overloads, extract over all valid position vectors. A case is non-trivial when its input has at least two elements (or, for scalar-argument spaces, from != to).
-// VF-BOUND: lengths 0..5 (quick) / 0..7 (thorough) exhaustively over 5-value alphabets instead of all int/real vectors of length 0..64; lengths 6..64 only through structured families; pairs/triples/weights up to length 3 (thorough: pairs up to 4); log-space values only from the 11-value alphabet and its 7 shifts; no NaN inputs; no random reals.
+// VF-RULE: E2 bounded-exhaustive enumeration, simplest input first, every index of every space executed on the real templates: (1) all int vectors over {-2..2} and all double vectors over {-1.5,0,0.25,1,2} of length 0..L through every one-vector function; (2) all ordered pairs of such vectors with lengths 0..3 (equal and unequal) x 7 function groups (operators, in-place operators, sumProd, scalar/cos/cov/cor/kronecker/mutual information, containsAll, diff, other set-like helpers); (3) all (values, weights) pairs of lengths 0..3 and all equal-length triples (v1, v2, weights) of length 0..3; (4) every length combination 0..3 x 0..3 (x 0..3) for each function with a size requirement; (5) structured families (constant, ramps, alternating, spike at every position, tie at every pair of positions) for every length 6..64; (6) log-space alphabet {0,-1,1,-800,800,-745.2,709.8,-1e300,1e300,-inf,+inf} for lengths 0..4 x shifts {0,+-1,+-700,+-1e300}, with weights over {1,0,0.5,0.25} for lengths 0..3, all pairs for NumTools::logsum, long log-space families 6..64; (7) seq over a lattice of (from,to,by), computeFdr over all p-vectors of length 0..L over 5 values, lists of 0..3 vectors for the list overloads, extract over all valid position vectors. A case is counted non-trivial when every input vector has at least two elements (shape spaces: all non-empty; list space: at least two vectors; seq: from != to; logsum: lnx != lny; family spaces: always).
+// VF-BOUND: lengths 0..5 (quick) / 0..7 (thorough) exhaustively over 5-value alphabets instead of all int/real vectors of length 0..64; lengths 6..64 only through structured families; pairs/triples/weights up to length 3 (thorough: pairs and (values, weights) up to 4, log-space vectors up to 5); quick tier: tie families only for lengths 6..16, 31..33, 63, 64 (thorough: every length 6..64); log-space values only from the 11-value alphabet and its 7 shifts; no NaN inputs; no random reals.
 // VF-LEVEL: bounded-exhaustive differential check of the real VectorTools/NumTools/StatTools code against exact-integer and long-double reference definitions under ASan+UBSan+libstdc++ assertions; every listed space is executed completely, nothing is sampled.
 // VF-ASSUME: g++ long double (x87 80-bit, 64-bit mantissa, exponent range 1e4932) and glibc expl/logl/sqrtl are accurate to 1 ulp;; sums and products over the integer/dyadic alphabets are exact in long double;; tolerances are first-order rounding bounds (gamma_n * sum of absolute terms) with a constant factor of head-room, written next to their use;; where the header documents no behaviour (mean/var of too few elements, zero norms, zero weight sums, infinite maximum in the weighted log functions, compound assignment with a longer right operand) the result is not judged, only the absence of a crash
 // VF-TECHNIQUE: bounded-exhaustive input enumeration with reference-model comparison
@@ -187,7 +187,7 @@ static void spaceLongDouble(vf::Runner& R) {
     else { std::vector<double> w(v.size()); for (size_t i = 0; i < w.size(); ++i) w[i] = wval((int)(i % NW)); logWeightedChecks(v, w, 0, c); }
   }, 10.0);
 }
-static void spaceLog(vf::Runner& R, int L, int LW) {
+static void spaceLogUnweighted(vf::Runner& R, int L) {
   uint64_t nv = nvec(NLOG, L);
   R.space("logspace:len<=" + str(L) + ":x7shifts:x2groups", nv * NSHIFT * 2, [=](uint64_t idx, vf::Case& c) {
     int g = (int)(idx % 2); int s = (int)((idx / 2) % NSHIFT); std::vector<double> v = mklog(decode(idx / 2 / NSHIFT, NLOG, L));
@@ -195,6 +195,9 @@ static void spaceLog(vf::Runner& R, int L, int LW) {
     logChecks(g, v, shiftval(s), c);
     if (idx % 20011 == 3) c.sample("log-domain reductions on " + vf::vstr(v) + " shifted by " + vf::num(shiftval(s)));
   }, 5.0);
+}
+static void spaceLog(vf::Runner& R, int L, int LW) {
+  spaceLogUnweighted(R, L);
   uint64_t nv2 = nvec(NLOG, LW), nw = nvec(NW, LW);
   R.space("logspace-weighted:len<=" + str(LW) + ":x7shifts", nv2 * nw * NSHIFT, [=](uint64_t idx, vf::Case& c) {
     int s = (int)(idx % NSHIFT); uint64_t k = idx / NSHIFT;
@@ -323,7 +326,7 @@ int main(int argc, char** argv) {
   spaceSeq(R); spaceFdr(R, L); spaceLists(R);
   spaceLog(R, 4, 3);
   spaceLong<int>(R); spaceLong<double>(R); spaceLongDouble(R);
-  if (th) { spacePairs<int>(R, 4); spacePairs<double>(R, 4); }
+  if (th) { spacePairs<int>(R, 4); spacePairs<double>(R, 4); spaceWeighted(R, 4); spaceLogUnweighted(R, 5); }
   R.expectSeen("raised-DimensionException"); R.expectSeen("raised-EmptyVectorException"); R.expectSeen("raised-ElementNotFoundException");
   R.expectSeen("lse:finite-where-naive-overflows"); R.expectSeen("lse:finite-where-naive-underflows"); R.expectSeen("lse:shift-law-checked");
   R.expectSeen("logsum:two-log-zeros"); R.expectSeen("ties-at-extremum"); R.expectSeen("repeated-elements"); R.expectSeen("fdr:with-ties"); R.expectSeen("seq:descending");
